@@ -27,6 +27,7 @@ func main() {
 		knownP  = flag.String("known", "", "known findings file (default <verif>/known_findings.json)")
 		noEv    = flag.Bool("no-evidence", false, "do not write evidence (self-test on scratch copies)")
 		list    = flag.Bool("list", false, "list properties and rules")
+		dump    = flag.Bool("dump-effects", false, "print the inventory of file-mutating call sites and their entry conditions")
 		vdir    = flag.String("verif", "", "verif directory (default: directory above the binary, else /verif)")
 	)
 	flag.Parse()
@@ -50,6 +51,15 @@ func main() {
 	seed := 0
 	if s := os.Getenv("VERIF_SEED"); s != "" {
 		seed, _ = strconv.Atoi(s)
+	}
+	if *dump {
+		c, err := load(*repo, "linux", "quick")
+		if err != nil {
+			fmt.Fprintln(os.Stderr, err)
+			os.Exit(2)
+		}
+		dumpEffects(c)
+		return
 	}
 	props := registry()
 	if *list {
@@ -233,6 +243,7 @@ func registry() []*propertySpec {
 	ps = append(ps, fsProperties()...)
 	ps = append(ps, envProperties()...)
 	ps = append(ps, graphProperties()...)
+	ps = append(ps, appProperties()...)
 	sort.Slice(ps, func(i, j int) bool { return ps[i].ID < ps[j].ID })
 	return ps
 }
